@@ -27,6 +27,8 @@ package client
 //@ ghost Client.wireN int
 //@ ghost Client.wire map[int]iface
 // Trace of the packets the client tried to send (every call of send, whether or not the write succeeded).
+// Number of PUBLISH messages handed to the subscription dispatcher (messageHandlers.handle).
+//@ ghost messageHandlers.dispatchN int
 //@ ghost Client.tryN int
 //@ ghost Client.try map[int]iface
 
@@ -123,7 +125,9 @@ package client
 //@   nopanic [C25]
 //@   requires [C25] wf: mhs != nil && handlersWF(mhs)
 //@   at split.0 after let levels = ret
-//@   assigns anycalls()
+//@   at split.0 before ghost mhs.dispatchN = mhs.dispatchN + 1
+//@   assigns anycalls(), mhs.dispatchN
+//@   ensures [C16,C27] counted: mhs.dispatchN == old(mhs.dispatchN) + 1
 //@   ensures [C27] at_most_one_callback: forall f MessageHandlerFunc :: calls(f) == old(calls(f)) || calls(f) == old(calls(f)) + 1
 //@   ensures [C27] only_a_matching_subscription: forall f MessageHandlerFunc :: calls(f) != old(calls(f)) ==>
 //@      (exists k iface :: (k in mhs.handlers) && smGet(mhs.handlers, k).(*messageHandler).callback == f &&
@@ -144,7 +148,7 @@ package client
 //@   at Pubrec.0 before assert [C25] entry_wf: clEntryWF(c, box(*publishQOS2Transaction, arg(0)))
 //@   at Pubcomp.0 before assert [C25] entry_wf: clEntryWF(c, box(*publishQOS2Transaction, arg(0)))
 //@   at Pubrel.0 before assert [C25] entry_wf: clEntryWF(c, box(*brokerPublishQOS2Transaction, arg(0)))
-//@   at Store.0 before check [C06] never_replaces_an_exchange: !(arg(1) in c.transactions.bypktID)
+//@   at Store.0 before check [C06,C17] never_replaces_an_exchange: !(arg(1) in c.transactions.bypktID)
 //@   at Publish.0 before assert [C25] entry_base: clBp2Entry(c, arg(0))
 //@   at Publish.0 after assert [C25] entry_wf_now: clEntryWF(c, box(*brokerPublishQOS2Transaction, arg(0)))
 //@   at Pubrec.0 after assert [C25] entry_still_wf: clEntryWF(c, box(*publishQOS2Transaction, arg(0)))
@@ -155,6 +159,10 @@ package client
 //@   ensures [C25] keeps_entries: clEntries(c)
 //@   ensures [C25] keeps_typed: clTyped(c)
 // C17: every PUBREL is answered (one send attempt) with a PUBCOMP of the same message ID, whether or not the exchange is still known
+// C16 / C27: a QoS 0/1 PUBLISH that is accepted is handed to the dispatcher exactly once, on receipt (QoS 1: after its PUBACK was sent);
+// a QoS 2 PUBLISH is not dispatched on receipt (it is dispatched by Pubrel)
+//@   ensures [C16,C27] qos01_dispatched_on_receipt: istype(pktx, *pkts1.Publish) && pktx.(*pkts1.Publish).QOS <= 1 && result == nil ==> c.messageHandlers.dispatchN == old(c.messageHandlers.dispatchN) + 1
+//@   ensures [C16,C27] qos2_not_dispatched_on_receipt: istype(pktx, *pkts1.Publish) && pktx.(*pkts1.Publish).QOS == 2 ==> c.messageHandlers.dispatchN == old(c.messageHandlers.dispatchN)
 //@   ensures [C17] pubrel_always_confirmed: istype(pktx, *pkts1.Pubrel) ==> c.tryN == w0 + 1 && istype(c.try[w0], *pkts1.Pubcomp) &&
 //@      c.try[w0].(*pkts1.Pubcomp).messageID == pktx.(*pkts1.Pubrel).messageID
 
